@@ -640,12 +640,65 @@ def labeled_frames_of(predictor, outputs):
     return recs
 
 
+READER_STATS = {"predict_runs": 0, "consumer_abandoned_reader_drained": 0, "reader_alive_after_full_consumption": 0,
+                "reader_alive_after_drain": 0, "threads_left_over": 0}
+READER_LEFTOVERS = []   # descriptions of readers that did not end although their consumer consumed everything
+
+
+def _finish_reader(reader, consumed_everything: bool, threads_before: int):
+    """Never leave a reader thread behind.  The repo's readers are non-daemon threads that block in
+    `frame_buffer.put` (no timeout) when nobody consumes: if the harness's consumer stopped early (an
+    exception inside the inference model, e.g. a stub that cannot render) the queue is drained up to the
+    end marker here and the thread is joined.  A reader that is still alive after its consumer consumed
+    EVERYTHING is not the harness's doing: it is counted separately (a finding about the reader)."""
+    import queue as _q
+    import threading
+    import time
+    if reader is None or not hasattr(reader, "frame_buffer"):
+        return
+    if consumed_everything:
+        reader.join(timeout=5.0)
+        if reader.is_alive():
+            READER_STATS["reader_alive_after_full_consumption"] += 1
+            READER_LEFTOVERS.append(f"{type(reader).__name__} still alive 5 s after predict() returned all its outputs")
+    if reader.is_alive() or not consumed_everything:
+        if not consumed_everything:
+            READER_STATS["consumer_abandoned_reader_drained"] += 1
+        deadline = time.time() + 30.0
+        while time.time() < deadline and (reader.is_alive() or not reader.frame_buffer.empty()):
+            try:
+                item = reader.frame_buffer.get(timeout=0.2)
+            except _q.Empty:
+                continue
+            if isinstance(item, dict) and item.get("image") is None:
+                break
+        if reader.ident is not None:
+            reader.join(timeout=5.0)
+        if reader.is_alive():
+            READER_STATS["reader_alive_after_drain"] += 1
+    t0 = time.time()
+    while threading.active_count() > threads_before and time.time() - t0 < 1.0:
+        time.sleep(0.02)
+    if threading.active_count() > threads_before:
+        READER_STATS["threads_left_over"] += threading.active_count() - threads_before
+
+
 def run_predict(predictor, provider: str, source):
     """The REAL `make_pipeline` (reader construction, `preprocess` switch) and
-    `predict(make_labels=False)` (`_predict_generator`) on an in-memory source."""
+    `predict(make_labels=False)` (`_predict_generator`) on an in-memory source.  Whatever happens to the
+    consumer, the reader thread is terminated before this returns (see `_finish_reader`)."""
+    import threading
+    threads_before = threading.active_count()
+    READER_STATS["predict_runs"] += 1
     with patched_loaders({"mem": source}):
         predictor.make_pipeline(provider, "mem")
-    return predictor.predict(make_labels=False)
+    done = False
+    try:
+        out = predictor.predict(make_labels=False)
+        done = True
+        return out
+    finally:
+        _finish_reader(getattr(predictor, "pipeline", None), done, threads_before)
 
 
 def integral_offset(cm2d: np.ndarray, cx: int, cy: int, patch: int = 5):
